@@ -56,6 +56,7 @@ KERNELS = {
     "generate_ordered_map_to_inner_right_unique_partial": {"owner": "C03", "mutated": [4, 5]},
     "generate_ordered_map_to_inner_both_unique_partial": {"owner": "C03", "mutated": [4, 5]},
     "compare_rows_for_journalling": {"owner": "C17", "mutated": [4]},          # returns None: the result is `to_keep`
+    "compare_indexed_rows_for_journalling": {"owner": "C17", "mutated": [6]},
     "merge_journalled_entries": {"owner": "C17", "mutated": [5]},              # returns None: the result is `dest`
     "merge_indexed_journalled_entries_count": {"owner": "C17"},
     "generate_ordered_map_to_left_both_unique": {"owner": "C19", "mutated": [2]},
@@ -588,11 +589,57 @@ def random_c17_merge(rng, t):
                  unsafe=not merge_safe_run(om, nm, tk, len(oi), len(ni), 0, True), fuel=len(oi) + 4, _from="random")
 
 
+def compare_indexed_safe(om, nm, oi, ov, ni, nv, tk):
+    """the assertions can be evaluated and, when they pass, every subscript is in range"""
+    if not oi or not ni:
+        return False
+    if len(om) != len(nm) or oi[-1] != len(ov) or ni[-1] != len(nv):
+        return True                                    # AssertionError before any other subscript
+    if len(tk) < len(om):
+        return False
+    for i, o in enumerate(om):
+        if tk[i] or o == -1 or nm[i] == -1:
+            continue
+        if not (_inr(o, len(oi)) and _inr(o + 1, len(oi)) and _inr(nm[i], len(ni)) and _inr(nm[i] + 1, len(ni))):
+            return False
+    return True
+
+
+def random_c17_indexed(rng):
+    no, nn, om, nm, _ = _journal_maps(rng)
+    mk = lambda k: [[rng.choice([97, 98])] * rng.choice([0, 1, 1, 2]) for _ in range(k)]      # noqa: E731
+    orows, nrows = mk(no), mk(nn)
+    oi, ni = [0], [0]
+    for r in orows:
+        oi.append(oi[-1] + len(r))
+    for r in nrows:
+        ni.append(ni[-1] + len(r))
+    ov, nv = [c for r in orows for c in r], [c for r in nrows for c in r]
+    what = rng.randrange(12)
+    if what == 0:
+        om = [rng.randrange(-1, no + 2) for _ in om]
+        nm = [rng.randrange(-2, nn + 2) for _ in nm]
+    elif what == 1:
+        nm = nm[:-1] if nm else [0]                    # assert len(old_map) == len(new_map)
+    elif what == 2:
+        ov = ov + [97]                                 # assert old_indices[-1] == len(old_values)
+    elif what == 3:
+        nv = nv[:-1] if nv else [98]
+    elif what == 4:
+        oi = []
+    tk = [rng.random() < 0.3 for _ in range(len(om) if rng.random() < 0.9 else rng.randrange(0, len(om) + 1))]
+    return gcase("compare_indexed_rows_for_journalling", [arr(om), arr(nm), arr(oi), arr(ov), arr(ni), arr(nv), barr(tk)],
+                 unsafe=not compare_indexed_safe(om, nm, oi, ov, ni, nv, tk), _from="random")
+
+
 def random_c17(rng, n_cases):
     out = []
     for t in range(n_cases):
-        if t % 3:
-            out.append(random_c17_merge(rng, t // 3 + t % 3))
+        if t % 4 == 3:
+            out.append(random_c17_indexed(rng))
+            continue
+        if t % 4:
+            out.append(random_c17_merge(rng, t // 4 + t % 4))
             continue
         no, nn = rng.randrange(0, 8), rng.randrange(0, 8)
         n = rng.randrange(0, 10)
